@@ -2,6 +2,8 @@
 
 from __future__ import annotations
 
+import math
+
 import claripy
 import z3
 from hypothesis import strategies as st
@@ -267,4 +269,78 @@ def shrink(case, obs, fp, matcher, deadline):
     return case, obs
 
 
-KNOWN_PREDICATES = {}
+# ------------------------------------------------------------------------------------------------
+# open finding C10-concrete-fp-rounding: the concrete backend folds floating point in Python doubles -- the rounding mode
+# argument is ignored and FLOAT results are never rounded to single precision.  A failure belongs to that finding iff the
+# tree contains a ground arithmetic / conversion node at which exactly that happens: the IEEE result of the node (its
+# sort, its rounding mode, operands evaluated exactly by Z3's rewriter) differs from what the same operation gives in
+# Python double arithmetic on those operands.  A wrong truth claim on a tree without such a node is not this finding.
+
+_ROUNDING_OPS = (*fpcheck.FP_ARITH, "fsqrt", "to_fp_fp", "to_fp_sbv", "to_fp_ubv")
+
+
+def _ground_float(t):
+    v = fpcheck.z3_ground_value(fpcheck.z3term(t))
+    if v[0] == "nan":
+        return math.nan
+    return fpcheck.bits_to_float(v[1], fpcheck.fsort(t))
+
+
+def _double_arith(node):
+    """The value Python double arithmetic gives for this node on exact operands (what the concrete backend computes)."""
+    op = node[0]
+    if op in fpcheck.FP_ARITH:
+        a, b = _ground_float(node[2]), _ground_float(node[3])
+        if op == "fadd":
+            return a + b
+        if op == "fsub":
+            return a - b
+        if op == "fmul":
+            return a * b
+        try:
+            return a / b
+        except ZeroDivisionError:
+            if a == 0 or math.isnan(a):
+                return math.nan
+            return -math.inf if (math.copysign(1.0, a) * math.copysign(1.0, b)) < 0 else math.inf
+    if op == "fsqrt":
+        a = _ground_float(node[2])
+        return math.nan if a < 0 else math.sqrt(a)
+    if op == "to_fp_fp":
+        return _ground_float(node[2])
+    z = fpcheck.z3term(node[2])
+    v = fpcheck.z3_ground_value(z)[1]
+    n = z.size()
+    if op == "to_fp_sbv" and v >= 1 << (n - 1):
+        v -= 1 << n
+    return float(v)
+
+
+def _same_float(a, b):
+    if math.isnan(a) or math.isnan(b):
+        return math.isnan(a) and math.isnan(b)
+    return a == b and math.copysign(1.0, a) == math.copysign(1.0, b)
+
+
+def rounding_material_nodes(t):
+    out = []
+    for s in fpcheck.subtrees(t):
+        if s[0] not in _ROUNDING_OPS:
+            continue
+        try:
+            exact = _ground_float(s)
+            legacy = _double_arith(s)
+        except (ValueError, OverflowError, z3.Z3Exception):
+            continue  # not ground (depends on a variable): nothing the concrete backend could have folded here
+        if not _same_float(exact, legacy):
+            out.append(fpcheck.pretty(s)[:120])
+    return out
+
+
+def _pred_fp_rounding(case, obs):
+    if case.get("sort") != "fp":
+        return False
+    return bool(rounding_material_nodes(fpcheck.T(case["tree"])))
+
+
+KNOWN_PREDICATES = {"fp_rounding_material": _pred_fp_rounding}
